@@ -175,6 +175,24 @@ fn publishes(env: &Env, e: &Ev) -> Option<PK> {
     }
 }
 
+/// A manifest publication that failed without being injected: another commit took the version slot. This only
+/// happens when one operation commits concurrently with itself (compact_files with several tasks reserves
+/// fragment ids from concurrent tasks); the conflict / retry path is C02's and C03's, the C01 model is about
+/// sequential histories. Such runs keep the direct oracle but are not given to the model.
+fn has_commit_conflict(env: &Env, trace: &[Ev]) -> bool {
+    trace.iter().any(|e| {
+        if e.effect || e.injected {
+            return false;
+        }
+        let target = match e.kind {
+            inject::K_PUT | inject::K_CREATE => env.rel(&e.a),
+            inject::K_RENAME_INE | inject::K_COPY_INE => env.rel(&e.b),
+            _ => return false,
+        };
+        matches!(classify(&target), PK::Man(_) | PK::Det(_))
+    })
+}
+
 struct RunOut {
     res: Option<Result<(), String>>, // None: the process stopped
     trace: Vec<Ev>,
@@ -205,6 +223,9 @@ const P_OTY: &str = "list (N * ((N * N) * (N * N))) * (N * list N)";
 fn emit_prog(sink: &mut Sink, prog: &mut Stream, pre: &Pre, out: &RunOut, post: &Snap, det_after: &[(u64, Vec<String>, usize)], op: &str, variant: u64) {
     let env = &out.env;
     let cfg = pre.env.cfg;
+    if has_commit_conflict(env, &out.trace) {
+        return;
+    }
     let mut ids = Ids::new(&pre.listing);
     // model-side description of the store at the start of the current commit: (path code, version, refs)
     let mut cur: Vec<((u64, u64), u64, Vec<u64>)> = vec![];
@@ -506,6 +527,10 @@ async fn judge_and_emit(
     }
 
     // ---------- model: replay the recorded calls ----------
+    if has_commit_conflict(env, &out.trace) {
+        sink.count("outside-model/concurrent-commit-inside-one-operation");
+        return Some((snap, det_after));
+    }
     let mut ids = Ids::new(&pre.listing);
     let pre_c = pre_codes(&mut ids, &pre.listing, &pre.snap, &pre.detached);
     let mut trace = out.trace.clone();
